@@ -245,6 +245,56 @@ fn input_fault_group(rep: &Report, idx: usize, seed: u64) -> Option<String> {
                 ));
             }
         }
+        // ... and the same for the CLI's temp file: one write() to it fails once (EIO, ENOSPC,
+        // EDQUOT) — in particular the last one, whose error tokio reports only to whoever asks
+        // next. The reference run's shim log says how many writes there are.
+        let temp = scn::temp_path_of(&out_path);
+        let (mut run, _) = scn::compress_run(&dir, "ref", &source, &spec);
+        run.watch = vec![src_path.clone(), temp.clone()];
+        let o = proc::run(&run);
+        rep.eval();
+        let twrites = o.shim.iter().filter(|r| r.widx == 1 && (r.kind == proc::K_WRITE || r.kind == proc::K_PWRITE) && r.ret > 0).count();
+        if o.exit.ok() && twrites > 0 {
+            rep.count("temp_fault.temp_writes_of_reference_runs", twrites as u64);
+            let mut ks: Vec<usize> = vec![twrites - 1];
+            if twrites >= 2 {
+                ks.push(twrites - 2);
+                ks.push(rng.usize_below(twrites - 1));
+            }
+            ks.sort();
+            ks.dedup();
+            for (j, k) in ks.into_iter().enumerate() {
+                let e = [libc::EIO, libc::ENOSPC, libc::EDQUOT][(idx + j) % 3];
+                let (mut run, out_path) = scn::compress_run(&dir, "ref", &source, &spec);
+                let _ = std::fs::remove_file(&out_path);
+                run.watch = vec![src_path.clone(), temp.clone()];
+                run.fault = Some(format!("1,{},errno,{}", k, e));
+                let o = proc::run(&run);
+                rep.eval();
+                if o.exit == Exit::Timeout {
+                    rep.inconclusive("watchdog (temp-file fault)");
+                    continue;
+                }
+                if !o.shim.iter().any(|r| r.kind == proc::K_FAULT) {
+                    rep.count("temp_fault.not_reached", 1);
+                    continue;
+                }
+                rep.count("temp_fault.fired", 1);
+                if !o.exit.ok() {
+                    rep.count("temp_fault.runs_that_failed_loudly", 1);
+                    let _ = std::fs::remove_file(&temp);
+                    continue;
+                }
+                rep.count("temp_fault.runs_that_succeeded", 1);
+                let bytes = std::fs::read(&out_path).map_err(|e| e.to_string())?;
+                if bytes != reference {
+                    return Err(format!(
+                        "write #{} of {} to the temp file failed once with errno {}: compress exited 0 but the archive differs from the fault-free run (lengths {} vs {}, first difference at byte {:?}; {})",
+                        k, twrites, e, bytes.len(), reference.len(), first_diff(&reference, &bytes), spec.describe()
+                    ));
+                }
+            }
+        }
         rep.nontrivial(format!("inputfault:{}:{}", spec.describe(), idx));
         Ok(())
     })();
@@ -341,7 +391,7 @@ pub fn run(tier: Tier, seed: u64) -> i32 {
         rep.broken("no group observed two different completion orders: injection ineffective".into());
     }
     rep.finish(
-        "each group = one (source, options, writer) compressed once without and R times with perturbation (buffered-chunks in {1,2,3,8,64,default}, TOKIO_WORKER_THREADS in {1,2,16,default}, file vs stdin pipe in random pieces, seeded delays in hash/compress workers, on temp-file writes and input reads); all archives of a group must be byte-identical; input-fault groups: one read() of a multi-MiB -i input fails once (EIO/EAGAIN/ENOMEM/ESTALE/EINTR) at each of the first data reads and at the EOF read - the run may fail, exit 0 must mean the fault-free bytes; non-trivial = groups in which the hook log showed >= 2 distinct worker completion orders",
+        "each group = one (source, options, writer) compressed once without and R times with perturbation (buffered-chunks in {1,2,3,8,64,default}, TOKIO_WORKER_THREADS in {1,2,16,default}, file vs stdin pipe in random pieces, seeded delays in hash/compress workers, on temp-file writes and input reads); all archives of a group must be byte-identical; input-fault groups: one read() of a multi-MiB -i input fails once (EIO/EAGAIN/ENOMEM/ESTALE/EINTR) at each of the first data reads and at the EOF read, and one write() to the CLI's temp file fails once (last, last but one, a random one; EIO/ENOSPC/EDQUOT) - the run may fail, exit 0 must mean the fault-free bytes; non-trivial = groups in which the hook log showed >= 2 distinct worker completion orders",
         &[
             "schedules are sampled by delay injection at the real hand-off points, not enumerated",
             "CLI file and CLI stdin input are the same writer with different input delivery and must agree; the library writer is compared with itself",
